@@ -27,7 +27,7 @@ func init() {
 }
 
 func init() {
-	registry["X00"].Rules = []func(*Ctx){func(c *Ctx) {
+	registry["X00"].Rules = []func(*Ctx){func(c *Ctx) { ruleUniformity(c, "fast", nil, "U-uniform") }, func(c *Ctx) {
 		opOf := ruleDispatchTables(c, "fast", []string{"fast.Comp.BinaryExpr1", "fast.Comp.UnaryExpr", "fast.Comp.setVar", "fast.Comp.setPlace"}, "A5")
 		ruleOperatorAnchor(c, "fast", opOf, "A5-operator", "A6-order", nil)
 		ext := extendOps(c, "fast", opOf)
@@ -653,7 +653,7 @@ func init() {
 			ruleUniformity(c, "fast", []string{"channel.go", "select.go"}, "U-uniform")
 			ruleStmtProtocol(c, "fast", []string{"channel.go", "select.go", "statement.go"}, "S1-stmt-protocol")
 			ruleAccessorFiles(c, "fast", []string{"channel.go", "select.go"}, "A2-accessor")
-			c.Floor("U-uniform", 80)
+			c.Floor("U-uniform", 55)
 		}},
 		Mutants: []Mutant{
 			{Name: "go-args-evaluated-in-goroutine", File: "fast/statement.go", Old: "\t\t\tfunv.Call(argv)\n\t\t}()", New: "\t\t\tfunv.Call(append(argv[:0:0], exprfun(env2)))\n\t\t}()", Canary: true},
@@ -669,7 +669,7 @@ func init() {
 		Title: "Statement control flow is executed exactly as in Go",
 		Explanation: "Decided: S1 every one of the ~3 800 statement closures of package fast returns Code[IP] of the environment it returns after exactly one advance of IP (or Code[t] after IP = t) on every path — an IP that is not advanced, or a statement taken from another frame than the one returned, is the generic control-flow bug; " +
 			"J1 in jumpOut and every other depth-specialised jump the frame whose IP is set and whose code is indexed is the one the arm names; J2 break/continue/goto stop at the enclosing function, count the frames to leave after each level and pass the count to jumpOut (D3: the compiler-chain walk advances one link per iteration); " +
-			"J3 every late-bound jump target (jump.Cond/Post/Break/..., LoopInfo.Break/Continue) is assigned a code position on every path to the end of its compile function; J4 Comp.Stmt has a case for every statement node of go/ast. " +
+			"J3 every late-bound jump target (jump.Cond/Post/Break/..., LoopInfo.Break/Continue) is assigned a code position on every path to the end of its compile function; J4 Comp.Stmt has a case for every statement node of go/ast; U sibling uniformity of the kind-specialised switch / range / select closures (including the arms that are alone in their category, compared modulo storage class). " +
 			"Not decided: the sequence of executed statements as such (switch dispatch optimisations, fallthrough, range and select semantics).",
 		Assumptions: []string{"the executor runs the statement returned by the previous one (C13 rules)"},
 		Rules: []func(*Ctx){func(c *Ctx) {
@@ -679,7 +679,9 @@ func init() {
 			ruleChainStride(c, []string{"fast"}, "D3-stride")
 			ruleLateBoundTargets(c, "J3-late-bound-targets")
 			ruleStmtCoverage(c, "fast.Comp.Stmt", "Stmt", "J4-stmt-coverage")
+			ruleUniformity(c, "fast", []string{"switch.go", "switch2.go", "switch_type.go", "range.go", "range_map.go", "select.go", "statement.go"}, "U-uniform")
 			c.Floor("S1-stmt-protocol", 2300)
+			c.Floor("U-uniform", 25)
 		}},
 		Mutants: []Mutant{
 			{Name: "jumpout-depth1-stays-in-frame", File: "fast/statement.go", Old: "\t\tstmt = func(env *Env) (Stmt, *Env) {\n\t\t\tenv = env.Outer\n\t\t\tip := *ip\n", New: "\t\tstmt = func(env *Env) (Stmt, *Env) {\n\t\t\tip := *ip\n", Canary: true},
